@@ -8,3 +8,4 @@ import PvProofs.C18
 #print axioms PvProofs.C18.module_roundtrip
 #print axioms PvProofs.C18.determinism_sources_benign
 #print axioms PvProofs.C18.determinism_facts_nonvacuous
+#print axioms PvProofs.C18.keeper_state_constant
